@@ -563,11 +563,13 @@ class HTTP1Connection(httputil.HTTPConnection):
     ) -> bool:
         if self.params.no_keep_alive:
             return False
-        connection_header = headers.get("Connection")
-        if connection_header is not None:
-            connection_header = connection_header.lower()
+        # Connection is a comma-separated list of connection options.
+        connection_options = [
+            opt.strip()
+            for opt in (headers.get("Connection") or "").lower().split(",")
+        ]
         if start_line.version == "HTTP/1.1":
-            return connection_header != "close"
+            return "close" not in connection_options
         elif (
             "Content-Length" in headers
             or is_transfer_encoding_chunked(headers)
@@ -575,7 +577,7 @@ class HTTP1Connection(httputil.HTTPConnection):
         ):
             # start_line may be a request or response start line; only
             # the former has a method attribute.
-            return connection_header == "keep-alive"
+            return "keep-alive" in connection_options
         return False
 
     def _finish_request(self, future: "Optional[Future[None]]") -> None:
